@@ -140,6 +140,7 @@ func unsignedKind[T uints](name string, width int) *Kind[T] {
 			}
 			return out
 		},
+		Deepen:   func(r *rng.R, a T) T { return a ^ 1 },
 		Enc:      func(a T) []byte { return codec.Unsigned(uint64(a), width) },
 		Storable: alwaysStorable[T],
 		HasRange: true,
@@ -199,6 +200,7 @@ func signedKind[T ints](name string, width int) *Kind[T] {
 			}
 			return out
 		},
+		Deepen:   func(r *rng.R, a T) T { return a ^ 1 },
 		Enc:      func(a T) []byte { return codec.Signed(int64(a), width) },
 		Storable: alwaysStorable[T],
 		HasRange: true,
